@@ -60,7 +60,7 @@ impl FInput {
 pub fn float_inputs(seed: u64, count: usize, nmax: usize, dims: &[usize]) -> Vec<FInput> {
     let mut rng = StdRng::seed_from_u64(seed.wrapping_mul(0x9E3779B97F4A7C15) ^ 0xF00D);
     let mut out = vec![];
-    let kinds = ["uniform", "cluster", "nearlattice", "lattice", "tiny", "aniso", "offset", "shell", "aniso", "ring"];
+    let kinds = ["uniform", "cluster", "nearlattice", "lattice", "tiny", "aniso", "offset", "shell", "aniso", "ring", "onwall"];
     let mut aniso_round = 0usize;
     let mut k = 0;
     while out.len() < count {
@@ -101,6 +101,20 @@ pub fn float_inputs(seed: u64, count: usize, nmax: usize, dims: &[usize]) -> Vec
                     let u = DVec3::new(rng.gen_range(0.0..1.0), rng.gen_range(0.0..1.0), rng.gen_range(0.0..1.0));
                     let p = if i < (2 * n) / 3 { c + r * (u - 0.5) } else { u };
                     gens.push(anchor + p * width);
+                }
+            }
+            "onwall" => {
+                // generators lying exactly on walls of a reflective box away from the origin
+                per = false;
+                anchor = DVec3::new(rng.gen_range(1.0..3.0), rng.gen_range(1.0..3.0), rng.gen_range(1.0..3.0));
+                for _ in 0..n {
+                    let u = DVec3::new(rng.gen_range(0.05..0.95), rng.gen_range(0.05..0.95), rng.gen_range(0.05..0.95));
+                    let mut p = anchor + u * width;
+                    if rng.gen_bool(0.5) {
+                        let k = rng.gen_range(0..dim);
+                        p[k] = if rng.gen_bool(0.5) { anchor[k] } else { anchor[k] + width[k] };
+                    }
+                    gens.push(p);
                 }
             }
             "shell" => {
